@@ -205,7 +205,9 @@ fn final_obs<E: EventState + 'static>(inst: &Inst<E>) -> (u8, u64, Vec<(usize, u
 const SKIP: &[&str] = &["iceoryx2-log/log/src/lib.rs"];
 
 fn emit<E: EventState + 'static>(c: &Case, ex: &ExecB, inst: &Inst<E>, out: &mut impl Write, xline: bool) {
-    let _ = writeln!(out, "{}", c.header());
+    // the (constant) distance value every RelocatablePointer::as_ptr load returns in this instance
+    let pdist = ex.log.iter().find_map(|r| match r { Rec::Acc { file, rd, .. } if file.ends_with("relocatable_pointer.rs") => Some(*rd), _ => None }).unwrap_or(0);
+    let _ = writeln!(out, "{} {}", c.header(), pdist);
     print_exec_b(ex, out, SKIP, xline);
     let sched: Vec<String> = ex.choices.iter().map(|c| c.to_string()).collect();
     let _ = writeln!(out, "S {}", sched.join(","));
@@ -296,11 +298,11 @@ fn parse_case(a: &[String]) -> Case {
 fn witnesses() -> Vec<(Case, Vec<usize>)> {
     let p = |s: &str| -> Vec<usize> { s.split(',').map(|x| x.parse().unwrap()).collect() };
     vec![
-        (Case { kind: "counting", cap: 1, tcap: None, lmodes: vec!['t', 'b'], nprogs: vec![vec![0, 0]], ff: vec![false] }, p("0,0,0,1,1,1,0,0,0,1,1,1")),
-        (Case { kind: "bitset", cap: 1, tcap: None, lmodes: vec!['t', 'b'], nprogs: vec![vec![0, 0]], ff: vec![false] }, p("0,0,0,1,1,1,1,0,0,0,1,1,1,1")),
-        (Case { kind: "bitset", cap: 1, tcap: None, lmodes: vec!['b', 'b'], nprogs: vec![vec![0, 0, 0]], ff: vec![false] }, p("1,1,1,1,1,0,1,1,1,0,0,0,1,1,1,1")),
-        (Case { kind: "counting", cap: 1, tcap: None, lmodes: vec!['b', 'b'], nprogs: vec![vec![0, 0, 0]], ff: vec![false] }, p("1,1,1,1,0,1,1,1,0,0,0,1,1,1")),
-        (Case { kind: "bitset", cap: 10, tcap: None, lmodes: vec!['b', 'b', 'b'], nprogs: vec![vec![0, 9], vec![9, 0]], ff: vec![false, false] }, p("0,1,1,1,1,0,0,0,0,0,0,2,2,2,1,1,1,1,2,2,2,2,2,2")),
+        (Case { kind: "counting", cap: 1, tcap: None, lmodes: vec!['t', 'b'], nprogs: vec![vec![0, 0]], ff: vec![false] }, p("0,0,0,1,1,1,1,0,0,0,0,1,1,1,1")),
+        (Case { kind: "bitset", cap: 1, tcap: None, lmodes: vec!['t', 'b'], nprogs: vec![vec![0, 0]], ff: vec![false] }, p("0,0,0,1,1,1,1,1,0,0,0,0,1,1,1,1,1")),
+        (Case { kind: "bitset", cap: 1, tcap: None, lmodes: vec!['b', 'b'], nprogs: vec![vec![0, 0, 0]], ff: vec![false] }, p("1,1,1,1,1,1,0,1,1,1,1,0,0,0,0,1,1,1,1,1")),
+        (Case { kind: "counting", cap: 1, tcap: None, lmodes: vec!['b', 'b'], nprogs: vec![vec![0, 0, 0]], ff: vec![false] }, p("1,1,1,1,1,0,1,1,1,1,0,0,0,0,1,1,1,1")),
+        (Case { kind: "bitset", cap: 10, tcap: None, lmodes: vec!['b', 'b'], nprogs: vec![vec![0], vec![9, 9]], ff: vec![false, false] }, p("1,1,2,2,2,2,2,2,0,2,2,2,2,0,0,0,0,0,0,1,2,1,1,1,1")),
     ]
 }
 
